@@ -258,6 +258,11 @@ def register(reg):
             out = [
                 ("idle_or_closed", ("C01", "C05"), z3.Or(state == IDLE, state == CLOSED)),
                 ("idle_only_if_both_done", ("C01", "C17"), z3.Implies(state == IDLE, was_done)),
+                # from the property (C01 "completely finished in both directions", C09 "an idle connection the server has
+                # already written to is never handed to a request"): requests are never pipelined, so a byte received beyond
+                # the end of the response answers nothing - the connection must not go back to the pool with it in the
+                # parser's buffer, where the next request would take it for its own response (design_probes/p33)
+                ("idle_only_if_nothing_was_received_beyond_the_response", ("C01", "C09"), z3.Implies(state == IDLE, z3.Length(F(c, h, "H.trailing", old=True)) == 0)),
                 ("idle_means_h11_recycled", ("C01",), z3.Implies(state == IDLE, z3.And(F(c, h, "H.our") == H_IDLE, F(c, h, "H.their") == H_IDLE))),
                 ("not_done_means_closed", ("C01", "C17", "C06"), z3.Implies(z3.Not(was_done), z3.And(state == CLOSED, z3.Not(F(c, stream, "NS.open"))))),
                 ("expiry_armed_iff_configured", ("C09",), z3.Implies(state == IDLE, exp.none == ka.none)),
